@@ -80,6 +80,21 @@ BinProgs ==
           f \in {"add", "subtract", "multiply", "divide"},
           o \in {<<Opnd(1), [s |-> H2(3)]>>, <<[s |-> Q(-2)], Opnd(1)>>, <<Opnd(1), [arr |-> [sh |-> <<3>>, v |-> Vec(3, "BNZ")]]>>}}
 
+\* where=mask without out= (masked-out cells zeroed by the harness on both sides): full, broadcast and all-False masks
+WMasks(sh) == IF sh = <<2, 3>> THEN {[sh |-> <<2, 3>>, v |-> <<TRUE, FALSE, TRUE, FALSE, FALSE, TRUE>>], [sh |-> <<3>>, v |-> <<FALSE, TRUE, TRUE>>],
+                                     [sh |-> <<2, 1>>, v |-> <<TRUE, FALSE>>], [sh |-> <<1>>, v |-> <<FALSE>>]}
+              ELSE {[sh |-> <<3>>, v |-> <<TRUE, FALSE, TRUE>>], [sh |-> <<>>, v |-> <<FALSE>>]}
+WhereMaskProgs ==
+  UNION {{<< Leaf(1, p[1], "A", k[1]), Leaf(2, p[2], "B", k[2]), [k |-> "op", h |-> 3, f |-> f, a |-> <<Opnd(1), Opnd(2)>>, wm |-> m] >> :
+            f \in {"add", "subtract", "multiply", "maximum"}, k \in Kinds2, m \in WMasks(p[1])}
+         : p \in {<<<<2, 3>>, <<2, 3>>>>, <<<<2, 3>>, <<3>>>>, <<<<3>>, <<3>>>>}}
+  \cup UNION {{<< Leaf(1, sh, "A", FALSE), [k |-> "op", h |-> 2, f |-> f, a |-> <<Opnd(1)>>, wm |-> m] >> :
+                 f \in {"negative", "positive", "square", "abs"}, m \in WMasks(sh)} : sh \in {<<2, 3>>, <<3>>}}
+  \* the masked result used once more before backward: its own gradient is an interior gradient the caller can read
+  \cup {<< Leaf(1, <<3>>, "A", FALSE), Leaf(2, <<3>>, "B", FALSE), [k |-> "op", h |-> 3, f |-> f, a |-> <<Opnd(1), Opnd(2)>>, wm |-> m],
+           [k |-> "op", h |-> 4, f |-> "multiply", a |-> <<Opnd(3), [s |-> Q(3)]>>] >> :
+          f \in {"add", "subtract"}, m \in WMasks(<<3>>)}
+
 UnProgs ==
   {<< Leaf(1, sh, IF f \in {"reciprocal"} THEN "NZ" ELSE "A", FALSE), [k |-> "op", h |-> 2, f |-> f, a |-> <<Opnd(1)>>] >> :
      f \in {"negative", "positive", "square", "abs", "reciprocal", "relu"}, sh \in Shapes1}
@@ -340,7 +355,7 @@ InPlaceProgs ==
             : upd \in {"aug", "augs", "set"}, ch \in Chains(1)} : ord \in {"C", "F"}}
 
 Progs == CASE Group = "binary" -> BinProgs [] Group = "unary" -> UnProgs [] Group = "reduce" -> RedProgs
-           [] Group = "matmul" -> MatProgs \cup MultiMatProgs [] Group = "getitem" -> GetProgs [] Group = "setitem" -> SetProgs
+           [] Group = "matmul" -> MatProgs \cup MultiMatProgs [] Group = "wheremask" -> WhereMaskProgs [] Group = "getitem" -> GetProgs [] Group = "setitem" -> SetProgs
            [] Group = "whereout" -> WhereOutProgs [] Group = "move" -> MoveProgs
            [] Group = "activation" -> ActProgs [] Group = "cumulative" -> CumProgs [] Group = "sequence" -> SeqProgs
            [] Group = "einsum" -> EinProgs [] Group = "conv" -> ConvProgs [] Group = "maxpool" -> PoolProgs
